@@ -43,6 +43,8 @@ THEOREMS = [
     "Verif.C10.windowed_is_mean",
     "Verif.C10.psd_bin0",
     "Verif.C10.parseval_one_sided",
+    "Verif.C10.parseval_windowed",
+    "Verif.C10.parseval_windowed_divides",
 ]
 RULE = "filled in below"
 TRUSTED = [
@@ -575,6 +577,16 @@ def oracle_psd(case, ia):
         acc /= nwin
         if len(p) > 1 and np.max(np.abs(acc[1:] - p[1:])) > tol:
             return "windowed: spectrum is not the mean of the per-window spectra"
+    # Parseval for every window length (zero-frequency and Nyquist bins counted once): the one-sided spectrum integrates
+    # to the mean square deviation, from the mean of the whole signal, of the samples the windows use - the variance
+    # of the signal when the window length divides its length (parseval_windowed / parseval_windowed_divides)
+    used = x[: npw * nwin]
+    ms_used = float(np.mean((used - x.sum() / n) ** 2))
+    total_w = df * (0.5 * p[0] + p[1 : (npw + 1) // 2].sum() + (0.5 * p[npw // 2] if npw % 2 == 0 else 0.0))
+    if abs(total_w - ms_used) > TOL * msq + 1e-300:
+        return f"parseval (window of {npw} points): spectrum integrates to {total_w!r}, mean square of the used samples is {ms_used!r}"
+    if npw * nwin == n and abs(total_w - float(np.var(x))) > TOL * msq + 1e-300:
+        return f"parseval (window of {npw} points divides N): spectrum integrates to {total_w!r}, variance is {float(np.var(x))!r}"
     a, c = case["a"], case["c"]
     _, _, _, pa = _parse_psd(ia[1])
     _, _, _, pc = _parse_psd(ia[2])
